@@ -353,4 +353,11 @@ Proof.
   - rewrite H1. lia.
 Qed.
 
+Theorem serial_dp_optimal_fixed_S1_inb s :
+  serial_feasible s -> s 1%nat = Nat.min eout (inbound_cst spreds sein s 1%nat + T 1%nat) ->
+  exists v, solution_cost spreds T sein c (seq 1 N) s = Some v /\ serial_cost N T ein eout c <= v.
+Proof.
+  intros Hf H1. apply serial_dp_optimal_fixed_S1; [exact Hf|]. rewrite H1. rewrite inbound_serial by lia. reflexivity.
+Qed.
+
 End SerialP.
